@@ -35,7 +35,12 @@ Value& TABExpression::value(Context & ctx) const
     return ctx.allocate(Value(Value::type_no_type.levelUp()));
   Value& a0 = _args[0]->value(ctx);
   if (a0.isNull())
-    return ctx.allocate(Value(_args[1]->value(ctx).type().levelUp()));
+  {
+    const Type& a1_type = _args[1]->value(ctx).type();
+    if (a1_type.level() >= TYPE_LEVEL_MAX - 1)
+      throw RuntimeError(EXC_RT_OUT_OF_DIMENSION);
+    return ctx.allocate(Value(a1_type.levelUp()));
+  }
   Integer n = *a0.integer();
   if (n < 0)
     throw RuntimeError(EXC_RT_INDEX_RANGE_S, a0.toString().c_str());
@@ -63,7 +68,7 @@ Value& TABExpression::value(Context & ctx) const
       if (a1.type() == Type::NO_TYPE || a1.type() == Value::type_rowtype)
         throw RuntimeError(EXC_RT_COMPOUND_OPAQUE);
       /* initialize the collection */
-      if (a1.type().level() == TYPE_LEVEL_MAX - 1)
+      if (a1.type().level() >= TYPE_LEVEL_MAX - 1)
         throw RuntimeError(EXC_RT_OUT_OF_DIMENSION);
       /* initialize with the type of value */
       if (a1.isNull())
